@@ -53,11 +53,11 @@ fn glossary(table: &Table, hard_bound: usize) -> Counting {
 }
 
 /// alias values (names a b c are the aliases; x y z plain commands)
-const VALUES_QUICK: [&str; 16] = ["b", "b ", "x\t", "x b ", "c x", "a x", "", " ", "if", "!", "{", "x;", "| x", "&& x", ">f", "v=1"];
+const VALUES_QUICK: [&str; 17] = ["b", "b ", "x\t", "x b ", "x G ", "c x", "a x", "", " ", "if", "!", "{", "x;", "| x", "&& x", ">f", "v=1"];
 const VALUES_MORE: [&str; 16] = [
     "c ", "a ", "b\t", "\"a\"", "\\a", "x y ", "b c", "( b", "x; b", "then", "do", "} ", "fi", "! b", "b\nc", "x &&",
 ];
-const GLOBAL_VALUES: [&str; 3] = ["x", "'b'", "y "];
+const GLOBAL_VALUES: [&str; 6] = ["x", "'b'", "y ", "c", "b x", "a "];
 
 const SLOT: [&str; 9] = ["a", "b", "c", "x", "\"a\"", "\\b", "a'c'", "v=a", "G"];
 
@@ -303,4 +303,4 @@ pub fn run(ctx: &Ctx) {
     ctx.assume("both sides are parsed by the same real parser; when both end in a syntax error only the trees before it and the kind of error are compared");
 }
 
-pub const RULE: &str = "all alias tables a,b,c -> values^3 over 16 (quick) / 32 values {another name, name+blank, self, two words, empty, blank only, tab-ending, reserved words if ! { then do fi }, operators ; | && ( , redirection, assignment, quoted forms, embedded newline} (+ a global alias G in every third table) x {41 templates with an alias name in every slot; 40/120 random fillings of the templates (command, argument, after assignment, after redirection, after ! ( { if then else elif while until do, for words, case subject/pattern/body, after line continuation and after newline following && |); 20/60 token-soup lines}. Real parser with a look-up-counting Glossary vs the same parser without aliases on the text substituted by hand by models::alias; trees compared with locations erased; look-up bound 50 x tokens x aliases; CPU-time watchdog. evaluations = (table, line) pairs; distinct_nontrivial = distinct (line, substituted text) pairs with at least one substitution";
+pub const RULE: &str = "all alias tables a,b,c -> values^3 over 17 (quick) / 33 values {another name, name+blank, self, two words, empty, blank only, tab-ending, reserved words if ! { then do fi }, operators ; | && ( , redirection, assignment, quoted forms, embedded newline} (+ a global alias G in every third table) x {41 templates with an alias name in every slot; 40/120 random fillings of the templates (command, argument, after assignment, after redirection, after ! ( { if then else elif while until do, for words, case subject/pattern/body, after line continuation and after newline following && |); 20/60 token-soup lines}. Real parser with a look-up-counting Glossary vs the same parser without aliases on the text substituted by hand by models::alias; trees compared with locations erased; look-up bound 50 x tokens x aliases; CPU-time watchdog. evaluations = (table, line) pairs; distinct_nontrivial = distinct (line, substituted text) pairs with at least one substitution";
